@@ -42,6 +42,8 @@ func init() {
 			Run: func(P *Program, R *Report) { decodedProductRule(P, R, "C18.i") }},
 		Rule{ID: "C18.f", Explain: "XML tags of PublicKey/PrivateKey: no duplicate or empty element names; every field that is not serialised (xml:\"-\") is recomputed by the loaders.",
 			Run: func(P *Program, R *Report) { xmlTagsRule(P, R) }},
+		Rule{ID: "C18.j", Explain: "decoding into a value that was used before leaves nothing of its previous content: in Update.uncompress and EventList.uncompress every exported field of the receiver that the function assigns at all is assigned on every path to its return (a field that is only replaced when the message carries it keeps the events of the previous message).",
+			Run: func(P *Program, R *Report) { decodersResetRule(P, R, "C18.j") }},
 	)
 }
 
@@ -663,4 +665,43 @@ func ecdsaParsed(typ, unmarshal string) *MustPass {
 			return c != nil && calleeIs(c, unmarshal) && idx == 1 && a.Want == Nil
 		},
 	}
+}
+
+
+func decodersResetRule(P *Program, R *Report, rule string) {
+	n := 0
+	for _, key := range []string{"revocation.(*Update).uncompress", "revocation.(*EventList).uncompress"} {
+		fn := mustFunc(P, R, rule, key)
+		if fn == nil || len(fn.Params) == 0 {
+			continue
+		}
+		recv := desc(fn.Params[0])
+		fields := map[string]bool{}
+		allInstrs(fn, func(i ssa.Instruction) {
+			st, ok := i.(*ssa.Store)
+			if !ok {
+				return
+			}
+			fa, ok := st.Addr.(*ssa.FieldAddr)
+			if !ok || desc(fa.X) != recv {
+				return
+			}
+			if f := faName(fa); f != "" && f[0] >= 'A' && f[0] <= 'Z' {
+				fields[f] = true
+			}
+		})
+		for _, f := range sortedKeys(fields) {
+			f := f
+			n++
+			mp(P, R, rule, key+":"+f+":always", "the decoder assigns "+f+" on every path (nothing of a previous decode survives)", fn, AcceptAny(), &MustPass{Instr: func(_ *ssa.Function, i ssa.Instruction) bool {
+				st, ok := i.(*ssa.Store)
+				if !ok {
+					return false
+				}
+				fa, ok := st.Addr.(*ssa.FieldAddr)
+				return ok && desc(fa.X) == recv && faName(fa) == f
+			}})
+		}
+	}
+	R.decide(rule, "decoders:fields", "decoded fields of Update and EventList were found (>= 3)", n >= 3, fmt.Sprintf("%d", n), "")
 }
